@@ -5,6 +5,8 @@ import PRV.Driver.C14
 import PRV.Driver.C15
 import PRV.Driver.C16
 import PRV.Driver.C10
+import PRV.Driver.C08
+import PRV.Driver.C08m
 import PRV.Driver.C20
 import PRV.Driver.C11
 import PRV.Driver.C07
@@ -34,6 +36,9 @@ def main (args : List String) : IO UInt32 := do
   | ["monitor", "c16"] => runMonitor C16.monitor; return 0
   | ["model", "c19"] => run (C19.machine false); return 0
   | ["spec", "c19"] => run (C19.machine true); return 0
+  | ["model", "c08"] => run C08m.machine; return 0
+  | ["spec", "c08"] => run C08m.machine; return 0
+  | ["monitor", "c08"] => runMonitor C08.monitor; return 0
   | ["model", "c10"] => run C10.machine; return 0
   | ["monitor", "c10"] => runMonitor C10.monitor; return 0
   | ["monitor", "c20"] => runMonitor C20.monitor; return 0
